@@ -12,7 +12,7 @@ pub fn run(o: &Opts) -> i32 {
     }
     let sz = sizes(&o.tier);
     let cases = build(
-        &CorpusSpec { seed: o.seed, generated: sz.generated, mutated: sz.mutated },
+        &CorpusSpec { seed: o.seed, generated: sz.generated, mutated: sz.mutated, layout: sz.layout },
         &o.repo,
         &o.verif,
     );
